@@ -14,9 +14,13 @@ META = dict(
     technique="Coq theorems (induction over iteration lists / draws / slices, real analysis of the affine scaling) on a model of the "
               "three personalisation algorithms whose decision rules are regenerated from the Python AST; the model's executable "
               "definitions are run inside Coq (vm_compute, exact rationals) on the recorded chains of real seeded personalisations "
-              "and on the real _AffineScalings1D; implementation-side oracles on every kind x algorithm x cohort shape",
+              "(default and non-default annealing schedules: single plateau ending at T=3, 3 plateaus, oscillations; burn-in 0 / n-1 / fractions) "
+              "and on the real _AffineScalings1D, through a header that imports no regenerated file, next to an exact recomputation in the harness "
+              "(a mismatch is shrunk to the offending individual and the two competing iterations and replayed on the real estimator); directed "
+              "calls of the real estimators on synthetic histories with exact ties; implementation-side oracles on every kind x algorithm x cohort shape",
     level_text="Unbounded theorems: kept draws = iterations nb+1..n (count n-nb, none from burn-in); mode_posterior = for each individual the "
-               "kept draw of minimal attachment+regularity, first index on ties; mean_posterior = exact mean over the kept draws; output "
+               "kept draw of minimal UNTEMPERED attachment+regularity, first index on ties, for every temperature schedule of the run "
+               "(C17_mode_ignores_temperature); mean_posterior = exact mean over the kept draws; output "
                "aligned with the input identifiers (order, one entry each, declared shapes) for all three algorithms; slices partition the "
                "stacked vector, stack/unstack and scaling/unscaling are mutually inverse; obj(result) <= obj(start) in natural coordinates "
                "UNDER the named hypothesis minimise_monotone on the optimiser (the code adds no guard; refuted without it).",
@@ -34,10 +38,16 @@ OBLIGATIONS = [
     "C17_scaling_roundtrip_vector", "C17_non_worsening", "C17_non_worsening_needs_hypothesis", "C17_scipy_cohort", "C17_scipy_total",
     "C17_tie_keep", "C17_tie_iterations", "C17_tie_axes", "C17_tie_mode_loss", "C17_tie_scaling", "C17_tie_scaling_Q",
     "C17_tie_objective", "C17_tie_ids",
+    "C17_mode_ignores_temperature", "C17_annealed_is_plain", "C17_mode_tempered_rule_agrees_at_T1", "C17_mode_tempered_rule_differs",
 ]
 
-HDR = ("From Coq Require Import String ZArith QArith List Bool.\nFrom Leaspy Require Import Base.QAux Api.Personalize Api.PersonalizeExec.\n"
-       "From LeaspyGen Require Import GenC17.\nOpen Scope string_scope.\n")
+# the model's executable definitions only: nothing regenerated is imported, so these cases run whatever happened to the translation
+HDR_MODEL = ("From Coq Require Import String ZArith QArith List Bool.\nFrom Leaspy Require Import Base.QAux Api.Personalize Api.PersonalizeExec "
+             "Api.PersonalizeAnneal Api.PersonalizeAnnealExec.\nOpen Scope string_scope.\n")
+# ... plus the rules regenerated from the source (only when the translation and the build of Props/C17 succeeded)
+HDR = HDR_MODEL + "From LeaspyGen Require Import GenC17.\n"
+MODEL_TARGETS = ["theories/Api/PersonalizeExec.vo", "theories/Api/PersonalizeAnnealExec.vo"]
+NEAR_TIE = 1e-6   # relative; float32 rounding of attachment + regularity
 
 
 def translate(run: Run) -> bool:
@@ -73,6 +83,54 @@ def declared_dims(model, names):
     return {n: int(math.prod(model.dag[n].get_prior_shape(model.dag)) or 1) for n in names}
 
 
+REPAIRS = {}   # what the generator had to repair, counted into the evidence by `cohort()`
+
+
+def valid_cohort(df, kind):
+    """Make a synthetic cohort one that leaspy documents as valid input, deterministically (no new random draw):
+    every individual keeps at least one observed value; a joint cohort has at least one observed event and, when it has two
+    individuals or more, at least one censored one (a single individual: an observed event, the reader refuses a cohort without any)."""
+    df = df.copy()
+    ycols = [c for c in df.columns if c.startswith("Y")]
+    for pid, g in df.groupby("ID", sort=False):
+        if g[ycols].isna().all().all():
+            df.loc[g.index[0], ycols[0]] = 0.5
+            REPAIRS["individual without any observation: first value set to 0.5"] = REPAIRS.get("individual without any observation: first value set to 0.5", 0) + 1
+    if kind == "joint" and "EVENT_BOOL" in df.columns:
+        ids = list(dict.fromkeys(df.ID))
+        ev = df.groupby("ID", sort=False).EVENT_BOOL.first()
+        if ev.max() == 0:
+            df.loc[df.ID == ids[0], "EVENT_BOOL"] = 1
+            REPAIRS["joint cohort without observed event: first individual's event made observed"] = REPAIRS.get("joint cohort without observed event: first individual's event made observed", 0) + 1
+        ev = df.groupby("ID", sort=False).EVENT_BOOL.first()
+        if len(ids) >= 2 and ev.min() == 1:
+            df.loc[df.ID == ids[-1], "EVENT_BOOL"] = 0
+            REPAIRS["joint cohort without censored event: last individual's event made censored"] = REPAIRS.get("joint cohort without censored event: last individual's event made censored", 0) + 1
+    return df
+
+
+def cohort(run: Run, kind="logistic", **kw):
+    """synth.make_df made valid (see valid_cohort); repairs are counted in the evidence."""
+    from harness import synth
+    return valid_cohort(synth.make_df(kind=kind, joint=(kind == "joint"), **kw), kind)
+
+
+def build_dataset(run: Run, df, kind, inp):
+    """Dataset of a harness-made cohort.  A refusal by the data reader is a shortcoming of the generator, not of personalisation:
+    the cohort is skipped and counted (never a failure of the property, never a crash of the search)."""
+    from harness import synth
+    from leaspy.exceptions import LeaspyDataInputError
+    from leaspy.io.data import Dataset
+    try:
+        with quiet(), warnings.catch_warnings():
+            warnings.simplefilter("ignore")
+            return Dataset(synth.make_data(valid_cohort(df, kind), kind), no_warning=True)
+    except LeaspyDataInputError as e:
+        run.count("skipped_cohorts_refused_by_the_data_reader", f"{kind}/{inp.get('cohort')}: {str(e)[:80]}")
+        run.extra["skipped_cohorts"] = run.extra.get("skipped_cohorts", 0) + 1
+        return None
+
+
 def reorder_blocks(df, order):
     import pandas as pd
     return pd.concat([df[df.ID == k] for k in order], ignore_index=True)
@@ -87,6 +145,9 @@ class McmcRecorder:
 
     def __init__(self):
         self.snaps = {}          # iteration -> {name: tensor}   (last snapshot of the iteration wins)
+        self.tinv = {}           # iteration -> temperature_inv handed to the samplers of that iteration
+        self.tinv_est = None     # self.temperature_inv when the estimator is called (after the last _update_temperature)
+        self.temperature_est = None
         self.n_sample_calls = 0
         self.hist = None         # (values dict, attachments, regularities) as given to the estimator
         self.result = None
@@ -113,6 +174,7 @@ class McmcRecorder:
             rec.n_sample_calls += 1
             if rec.algo is not None:
                 rec.snaps[rec.algo.current_iteration] = {n: state[n].detach().clone() for n in rec.names}
+                rec.tinv[rec.algo.current_iteration] = float(temperature_inv)
             return r
         McmcPersonalizeAlgorithm._initialize_algo = init
         IndividualGibbsSampler.sample = sample
@@ -122,6 +184,8 @@ class McmcRecorder:
 
             def est(self_, values, attachments, regularities, _orig=orig):
                 rec.hist = ({k: v.detach().clone() for k, v in values.items()}, attachments.detach().clone(), regularities.detach().clone())
+                rec.tinv_est = float(getattr(self_, "temperature_inv", 1.0))
+                rec.temperature_est = float(getattr(self_, "temperature", 1.0))
                 r = _orig(self_, values, attachments, regularities)
                 rec.result = {k: v.detach().clone() for k, v in r.items()}
                 return r
@@ -149,7 +213,8 @@ class ScipyRecorder:
 
         def pat(self_, state, *, scaling, with_jac, patient_id):
             cur = dict(patient_id=patient_id, with_jac=with_jac,
-                       start={n: state[n].detach().clone() for n in state.dag.individual_variable_names}, evals=[])
+                       start={n: state[n].detach().clone() for n in state.dag.individual_variable_names}, evals=[],
+                       scal=[(n, sc.loc.reshape(-1).tolist(), sc.scale.reshape(-1).tolist()) for n, sc in scaling.scalings.items()])
             rec.calls.append(cur)
             return rec._o_pat(self_, state, scaling=scaling, with_jac=with_jac, patient_id=patient_id)
 
@@ -244,15 +309,28 @@ def scalings_cases(run: Run, n_cases: int):
             continue
         run.case(("scalings", tuple(names), tuple(dims), c), nontrivial=nvar >= 2)
         run.count("scalings_n_variables", nvar)
+        # the same rule recomputed in the harness (all numbers are dyadic: exact in float32), so that a mismatch has a self-contained replay
+        pos, exp_un, exp_sc = 0, {}, []
+        for n, d in zip(names, dims):
+            lo, sc_ = scal[n].loc.tolist(), scal[n].scale.tolist()
+            exp_un[n] = [lo[j] + sc_[j] * z[pos + j] for j in range(d)]
+            exp_sc += [(ips[n].tolist()[j] - lo[j]) / sc_[j] for j in range(d)]
+            pos += d
+        obs_un = {n: [float(x) for x in un[n].reshape(-1).tolist()] for n in names}
+        if obs_un != exp_un or [float(x) for x in scd.tolist()] != exp_sc:
+            run.fail("scalings:model-mismatch", "_AffineScalings1D.unscaling / scaling is not loc + scale * x / (x - loc) / scale of each variable on its own slice",
+                     dict(m, z=z, loc={n: scal[n].loc.tolist() for n in names}, scale={n: scal[n].scale.tolist() for n in names}, ips={n: ips[n].tolist() for n in names}),
+                     expected=dict(unscaling=exp_un, scaling=exp_sc), observed=dict(unscaling=obs_un, scaling=[float(x) for x in scd.tolist()]))
         scal_c = coq_list([coq_list([f"({coq_Q(l)}, {coq_Q(s)})" for l, s in zip(scal[n].loc.tolist(), scal[n].scale.tolist())]) for n in names])
         cases.append("(" + ", ".join([
             scal_c, qlist(z), coq_list([qlist(ips[n].tolist()) for n in names]),
             coq_list([f"({a}, {b})%nat" for a, b in sl]), f"{len(sc)}%nat",
             coq_list([qlist(un[n].reshape(-1).tolist()) for n in names]), qlist(scd.tolist()),
             coq_list([qlist(ust[n].reshape(-1).tolist()) for n in names]), qlist(stk.tolist())]) + ")")
-        meta.append(dict(m, slices=sl, z=z))
+        meta.append(dict(m, slices=sl, z=z, loc={n: scal[n].loc.tolist() for n in names}, scale={n: scal[n].scale.tolist() for n in names},
+                         ips={n: ips[n].tolist() for n in names}, unscaling={n: un[n].reshape(-1).tolist() for n in names}, scaling=scd.tolist()))
     ty = "list (list (Q * Q)) * list Q * list (list Q) * list (nat * nat) * nat * list (list Q) * list Q * list (list Q) * list Q"
-    bad = run.vm_bad_indices("scalings", HDR, ty, cases,
+    bad = run.vm_bad_indices("scalings", HDR_MODEL, ty, cases,
                              "(fun c => match c with (scal, z, ips, sl, len, un, scd, ust, stk) => check_scalings scal z ips sl len un scd ust stk end)")
     for i in bad or []:
         run.fail("scalings:model-mismatch", "_AffineScalings1D (slices / stack / unstack / scaling / unscaling) differs from the model on exact inputs", meta[i])
@@ -262,15 +340,42 @@ def scalings_cases(run: Run, n_cases: int):
 
 # ----------------------------------------------------------------------------- B. recorded chains through the model
 
+SCHEDULES = {
+    # name -> the `annealing` settings handed to personalize (None = the defaults: annealing off, temperature 1 throughout)
+    "default": None,
+    # accepted with a warning: the whole run, and the call of the estimator, happen at temperature 3 (temperature_inv = 1/3)
+    "plateau1-T3": dict(do_annealing=True, initial_temperature=3, n_plateau=1),
+    # a proper scheme: 3 -> 2 -> 1 during the first half of the iterations; ends at temperature 1
+    "linear3-T3": dict(do_annealing=True, initial_temperature=3, n_plateau=3),
+    # oscillating scheme (the constructor only warns about keys absent from the defaults): ends wherever the sine left it
+    "oscillations": dict(do_annealing=True, initial_temperature=3, n_plateau=3, oscillations=True, range=1.0, delay=0.5, period=4),
+}
 
-def chain_case(run: Run, model, df, kind, algo, n_iter, nb=None, frac_=None, seed=0, tag=""):
+
+class Acc:
+    """Coq literals (+ the input they come from) accumulated over the recorded runs of one check."""
+
+    def __init__(self):
+        self.mode, self.mode_meta = [], []
+        self.mean, self.mean_meta = [], []
+        self.count, self.count_meta = [], []
+        self.empty, self.empty_meta = [], []
+
+
+def chain_case(run: Run, model, df, kind, algo, n_iter, nb=None, frac_=None, seed=0, tag="", ann=None, sched="default"):
     """One real sampling-based personalisation, recorded.  Returns a dict or None (failure already reported)."""
     import torch
     from harness import synth
     from leaspy.io.data import Dataset
     inp = dict(kind=kind, algo=algo, n_iter=n_iter, n_burn_in_iter=nb, n_burn_in_iter_frac=frac_, seed=seed, cohort=tag, n_ind=int(df.ID.nunique()))
-    with quiet():
-        dataset = Dataset(synth.make_data(df, kind), no_warning=True)
+    kw = dict(n_iter=n_iter, n_burn_in_iter=nb, n_burn_in_iter_frac=frac_)
+    if ann is not None:
+        inp["schedule"] = sched
+        inp["annealing"] = dict(ann)
+        kw["annealing"] = dict(ann)
+    dataset = build_dataset(run, df, kind, inp)
+    if dataset is None:
+        return None
     rec = McmcRecorder()
     err = None
     ip = None
@@ -278,7 +383,7 @@ def chain_case(run: Run, model, df, kind, algo, n_iter, nb=None, frac_=None, see
         warnings.simplefilter("ignore")
         try:
             with quiet():
-                ip = model.personalize(dataset, algo, seed=seed, progress_bar=False, n_iter=n_iter, n_burn_in_iter=nb, n_burn_in_iter_frac=frac_)
+                ip = model.personalize(dataset, algo, seed=seed, progress_bar=False, **kw)
         except Exception as e:  # noqa
             err = e
     if rec.algo is None:
@@ -307,10 +412,119 @@ def chain_case(run: Run, model, df, kind, algo, n_iter, nb=None, frac_=None, see
         vals = torch.cat([rec.snaps[k][n].reshape(rec.snaps[k][n].shape[0], -1) for n in names], dim=1)
         chain.append((vals, a, r))
     out["chain"] = chain
+    out["tinv"] = [rec.tinv.get(k, 1.0) for k in iters]
+    run.count("schedule", sched)
+    if rec.temperature_est is not None:
+        run.count("temperature_when_estimator_is_called", f"{sched}: {rec.temperature_est:.4g}")
     return out
 
 
-def chain_checks(run: Run, c, strict_cases, strict_meta, mean_cases, mean_meta, count_cases, count_meta, empty_cases, empty_meta):
+def loss_pair(c, att_rec, k, i):
+    """(attachment, regularity) of individual i at iteration k: the value handed to the estimator when the iteration was kept,
+    the from-scratch recomputation otherwise (burn-in)."""
+    if k in att_rec:
+        a, r = att_rec[k]
+    else:
+        _, a, r = c["chain"][k - 1]
+    return float(a[i]), float(r[i])
+
+
+def draw_record(c, att_rec, k, i, kept):
+    a, r = loss_pair(c, att_rec, k, i)
+    return dict(iteration=k, kept_after_burn_in=bool(k in kept), values=[float(x) for x in c["chain"][k - 1][0][i].tolist()],
+                attachment=a, regularity=r, loss=float(frac(a) + frac(r)),
+                temperature_inv_of_the_samplers=c["tinv"][k - 1] if k - 1 < len(c["tinv"]) else None)
+
+
+def estimator_on(c, i, ks, att_rec):
+    """The REAL estimator of the recorded run (same algorithm object, in the state the run left it in: temperature included) applied
+    to the history of individual i shrunk to the iterations ks.  Returns the flattened row, or a string when it raises."""
+    import torch
+    rec, names = c["rec"], c["names"]
+    try:
+        values = {n: torch.stack([rec.snaps[k][n][i:i + 1].clone() for k in ks]) for n in names}
+        a = torch.tensor([[loss_pair(c, att_rec, k, i)[0]] for k in ks], dtype=torch.float32)
+        r = torch.tensor([[loss_pair(c, att_rec, k, i)[1]] for k in ks], dtype=torch.float32)
+        out = type(rec.algo)._compute_individual_parameters_from_samples_torch(rec.algo, values, a, r)
+        return [float(x) for n in names for x in out[n].reshape(-1).tolist()]
+    except Exception as e:  # noqa
+        return f"{type(e).__name__}: {e}"
+
+
+def py_mode_oracle(run: Run, c, rows, att_rec):
+    """The extracted rule, recomputed in the harness on exact rationals: for each individual the FIRST iteration after burn-in minimising
+    attachment + regularity.  Returns one shrunk chain (the offending individual, the two competing iterations) per mismatch."""
+    inp, chain, nb, n_iter = c["inp"], c["chain"], c["nb_eff"], c["inp"]["n_iter"]
+    ids = [str(i) for i in c["dataset"].indices]
+    kept = list(range(max(1, nb + 1), n_iter + 1))
+    bad = []
+    for i, pid in enumerate(ids):
+        loss = {}
+        for k in kept:
+            a, r = loss_pair(c, att_rec, k, i)
+            loss[k] = frac(a) + frac(r)
+        m = min(loss.values())
+        k_model = next(k for k in kept if loss[k] == m)
+        expected = [float(x) for x in chain[k_model - 1][0][i].tolist()]
+        row = [float(x) for x in rows[i]]
+        if row == expected:
+            continue
+        same = [k for k in range(1, n_iter + 1) if [float(x) for x in chain[k - 1][0][i].tolist()] == row]
+        same_kept = [k for k in same if k in loss]
+        if same_kept and min(loss[k] for k in same_kept) <= m + frac(NEAR_TIE) * (1 + abs(m)):
+            run.count("mode_python_oracle", "float32 near-tie of attachment + regularity")
+            continue
+        k_impl = same_kept[0] if same_kept else (same[0] if same else None)
+        how = ("a kept draw of strictly higher attachment + regularity" if same_kept else
+               "a draw of the burn-in phase" if same else "not a draw of that individual at all")
+        shrunk = dict(individual=pid, index=i, variables={n: int(math.prod(c["rec"].snaps[1][n].shape[1:]) or 1) for n in c["names"]},
+                      n_burn_in_iter_effective=nb, kept_iterations=[kept[0], kept[-1]],
+                      temperature_inv_when_estimator_called=c["rec"].tinv_est,
+                      expected_iteration=k_model, returned_iteration=k_impl, returned_is=how, returned_row=row, expected_row=expected,
+                      draws=[draw_record(c, att_rec, k, i, kept) for k in sorted({k_model} | ({k_impl} if k_impl else set()))])
+        if k_impl is not None:
+            ks = sorted({k_model, k_impl})
+            got = estimator_on(c, i, ks, att_rec)
+            shrunk["estimator_on_the_two_draws_returns"] = got
+            shrunk["shrunk_chain_reproduces"] = bool(got == row)
+        bad.append((shrunk, how))
+    return bad
+
+
+def py_mean_oracle(run: Run, c, rows):
+    """mean over the iterations after burn-in, recomputed from the snapshots of the chain (not from the histories the code built)"""
+    chain, nb, n_iter = c["chain"], c["nb_eff"], c["inp"]["n_iter"]
+    ids = [str(i) for i in c["dataset"].indices]
+    kept = list(range(max(1, nb + 1), n_iter + 1))
+    bad = []
+    for i, pid in enumerate(ids):
+        for j in range(len(rows[i])):
+            col = {k: float(chain[k - 1][0][i][j]) for k in range(1, n_iter + 1)}
+            exp = float(sum(frac(col[k]) for k in kept) / len(kept))
+            if abs(rows[i][j] - exp) <= 1e-5 * (1 + abs(exp)):
+                continue
+            alt = {"the mean over ALL iterations (burn-in included)": float(sum(frac(v) for v in col.values()) / len(col)),
+                   "the last draw": col[n_iter], "the first kept draw": col[kept[0]]}
+            if len(kept) > 1:
+                alt["the mean over the kept draws but the first"] = float(sum(frac(col[k]) for k in kept[1:]) / (len(kept) - 1))
+            hint = [w for w, v in alt.items() if abs(rows[i][j] - v) <= 1e-5 * (1 + abs(v))]
+            bad.append((dict(individual=pid, index=i, coordinate=j, n_burn_in_iter_effective=nb, kept_iterations=[kept[0], kept[-1]],
+                             expected_mean=exp, returned=rows[i][j], returned_looks_like=hint,
+                             draws=[dict(iteration=k, kept_after_burn_in=k in kept, value=col[k]) for k in col]), hint))
+            break   # one coordinate per individual is enough
+    return bad
+
+
+def chain_checks(run: Run, c, acc: Acc):
+    """One recorded run through the oracles; a crash of the harness on one run is reported and does not stop the search."""
+    try:
+        _chain_checks(run, c, acc)
+    except Exception as e:  # noqa
+        import traceback
+        run.broken("search:chain-checks", f"{type(e).__name__}: {e} on {c['inp']}\n{traceback.format_exc()[-1200:]}")
+
+
+def _chain_checks(run: Run, c, acc: Acc):
     """Python-side oracles on one recorded run + Coq literals for the model-side comparison."""
     import torch
     inp, rec, names, chain, nb, n_iter = c["inp"], c["rec"], c["names"], c["chain"], c["nb_eff"], c["inp"]["n_iter"]
@@ -332,47 +546,12 @@ def chain_checks(run: Run, c, strict_cases, strict_meta, mean_cases, mean_meta, 
         if nb < n_iter:
             run.fail(f"mcmc:raises:{type(c['err']).__name__}", f"{algo} raised {type(c['err']).__name__}: {str(c['err'])[:200]} although iterations {nb + 1}..{n_iter} are after burn-in", inp)
             return
-        run.case(("empty", inp["kind"], algo, n_iter, nb), nontrivial=True)
-        empty_cases.append(f"({coq_Z(n_iter)}, {coq_Z(nb)}, {ids_lit}, {dim}%nat, {chain_lit()})")
-        empty_meta.append(inp)
+        run.case(("empty", inp["kind"], algo, n_iter, nb, inp.get("schedule")), nontrivial=True)
+        acc.empty.append(f"({coq_Z(n_iter)}, {coq_Z(nb)}, {ids_lit}, {dim}%nat, {chain_lit()})")
+        acc.empty_meta.append(inp)
         return
     run.count("mcmc_outcome", "returned")
-    if rec.hist is None:
-        run.fail("mcmc:estimator-not-called", "the estimator was not called with the histories", inp)
-        return
-    values, att, reg = rec.hist
-    n_kept = int(att.shape[0])
-    run.case(("count", inp["kind"], algo, n_iter, nb, inp["n_burn_in_iter_frac"]), nontrivial=0 < nb < n_iter)
-    count_cases.append(f"({coq_Z(n_iter)}, {coq_Z(nb)}, {n_kept}%nat)")
-    count_meta.append(dict(inp, kept=n_kept, expected=max(0, n_iter - max(nb, 0))))
-    if any(int(v.shape[0]) != n_kept for v in values.values()) or int(reg.shape[0]) != n_kept:
-        run.fail("mcmc:histories-misaligned", "the three histories do not have the same number of draws", inp)
-        return
-    # kept history == chain[nb+1..n] bit for bit (python side; the Coq side repeats it through `history`)
-    hist_vals = torch.cat([values[n].reshape(n_kept, n_ind, -1) for n in names], dim=2)
-    expected = [chain[k - 1][0] for k in range(max(1, nb + 1), n_iter + 1)]
-    same = len(expected) == n_kept and all(torch.equal(hist_vals[d].double(), expected[d].double()) for d in range(n_kept))
-    if not same:
-        kept_iters = []
-        for d in range(n_kept):
-            kept_iters.append([k for k in range(1, n_iter + 1) if torch.equal(hist_vals[d].double(), chain[k - 1][0].double())][:1])
-        run.fail("mcmc:kept-draws", "the draws kept are not exactly the iterations after burn-in", inp,
-                 expected=list(range(max(1, nb + 1), n_iter + 1)), observed=kept_iters)
-    # fresh attachment / regularity vs the recorded ones on the kept iterations
-    worst = 0.0
-    override = {}
-    for d, k in enumerate(range(max(1, nb + 1), n_iter + 1)):
-        if d >= n_kept:
-            break
-        _, a, r = chain[k - 1]
-        override[k] = (att[d].reshape(-1), reg[d].reshape(-1))
-        for x, y in ((a, att[d].reshape(-1)), (r, reg[d].reshape(-1))):
-            e = ((x.double() - y.double()).abs() / (1 + y.double().abs())).max().item()
-            worst = max(worst, e)
-    if worst > 1e-4:
-        run.fail("mcmc:stale-loss", f"attachment / regularity recorded in the history differ from a from-scratch recomputation (rel {worst:.2g})", inp)
-    run.extra["max_rel_gap_recorded_vs_fresh_loss"] = max(run.extra.get("max_rel_gap_recorded_vs_fresh_loss", 0.0), worst)
-    # output
+    # ---- output container
     ip = c["ip"]
     if [str(i) for i in ip._indices] != ids:
         run.fail("aligned:ids", "output identifiers differ from the input identifiers / order", inp, expected=ids, observed=list(ip._indices))
@@ -380,59 +559,145 @@ def chain_checks(run: Run, c, strict_cases, strict_meta, mean_cases, mean_meta, 
     rows = [row_of(ip, i, names) for i in ids]
     if any(not all(math.isfinite(x) for x in r) for r in rows):
         run.fail("finite:mcmc", "non-finite individual parameter returned", inp)
-    impl_lit = coq_list([f"({coq_string(i)}, {qlist(r)})" for i, r in zip(ids, rows)])
-    run.case(("chain", inp["kind"], algo, n_iter, nb, inp["cohort"], inp["seed"]), nontrivial=n_kept >= 2 and n_ind >= 2)
-    run.count("chain_kept_draws", n_kept)
-    with_h = inp["cohort"] == "grid" or n_ind <= 2
-    hist_lit = (coq_list([coq_list([qlist(hist_vals[d][i].tolist()) for i in range(n_ind)]) for d in range(n_kept)]) if with_h else "[]") + (", true" if with_h else ", false")
-    lit = chain_lit(override)
-    if algo == "mode_posterior":
-        strict_cases.append(f"({coq_Z(n_iter)}, {coq_Z(nb)}, {ids_lit}, {lit}, {impl_lit}, {hist_lit})")
-        strict_meta.append(inp)
+    # ---- what the estimator was given (when the hook is still where the recorder expects it)
+    att_rec = {}
+    n_kept = None
+    hist_vals = None
+    expected_kept = list(range(max(1, nb + 1), n_iter + 1))
+    if rec.hist is None:
+        run.count("mcmc_outcome", "estimator-hook-not-called: oracles run on the snapshots only")
     else:
-        mean_cases.append(f"({coq_Z(n_iter)}, {coq_Z(nb)}, {ids_lit}, {dim}%nat, {lit}, {impl_lit}, {hist_lit})")
-        mean_meta.append(inp)
-    run.sample(dict(kind_="chain", **inp, n_burn_in_effective=nb, kept=n_kept, first_row=rows[0]), limit=4)
+        values, att, reg = rec.hist
+        n_kept = int(att.shape[0])
+        run.case(("count", inp["kind"], algo, n_iter, nb, inp["n_burn_in_iter_frac"], inp.get("schedule")), nontrivial=0 < nb < n_iter)
+        acc.count.append(f"({coq_Z(n_iter)}, {coq_Z(nb)}, {n_kept}%nat)")
+        acc.count_meta.append(dict(inp, kept=n_kept, expected=len(expected_kept)))
+        if n_kept != len(expected_kept):
+            run.fail("mcmc:kept-count", "number of kept draws is not n_iter - n_burn_in_iter", dict(inp, n_burn_in_iter_effective=nb),
+                     expected=len(expected_kept), observed=n_kept)
+        if any(int(v.shape[0]) != n_kept for v in values.values()) or int(reg.shape[0]) != n_kept:
+            run.fail("mcmc:histories-misaligned", "the three histories do not have the same number of draws", inp)
+            return
+        # kept history == chain[nb+1..n] bit for bit (python side; the Coq side repeats it through `history`)
+        hist_vals = torch.cat([values[n].reshape(n_kept, n_ind, -1) for n in names], dim=2)
+        expected = [chain[k - 1][0] for k in expected_kept]
+        same = len(expected) == n_kept and all(torch.equal(hist_vals[d].double(), expected[d].double()) for d in range(n_kept))
+        if not same:
+            kept_iters = []
+            for d in range(n_kept):
+                kept_iters.append([k for k in range(1, n_iter + 1) if torch.equal(hist_vals[d].double(), chain[k - 1][0].double())][:1])
+            run.fail("mcmc:kept-draws", "the draws kept are not exactly the iterations after burn-in", dict(inp, n_burn_in_iter_effective=nb),
+                     expected=expected_kept, observed=kept_iters)
+        # fresh attachment / regularity vs the recorded ones on the kept iterations
+        worst = 0.0
+        for d, k in enumerate(expected_kept):
+            if d >= n_kept:
+                break
+            _, a, r = chain[k - 1]
+            att_rec[k] = (att[d].reshape(-1), reg[d].reshape(-1))
+            for x, y in ((a, att[d].reshape(-1)), (r, reg[d].reshape(-1))):
+                e = ((x.double() - y.double()).abs() / (1 + y.double().abs())).max().item()
+                worst = max(worst, e)
+        if worst > 1e-4:
+            run.fail("mcmc:stale-loss", f"attachment / regularity recorded in the history differ from a from-scratch recomputation (rel {worst:.2g})", inp)
+        run.extra["max_rel_gap_recorded_vs_fresh_loss"] = max(run.extra.get("max_rel_gap_recorded_vs_fresh_loss", 0.0), worst)
+    # ---- the extracted rule recomputed in the harness (always runs: needs neither the translation nor Coq)
+    meta = dict(inp, n_burn_in_iter_effective=nb)
+    if not expected_kept:
+        run.fail("mcmc:returns-without-kept-draw", f"{algo} returned although no iteration is after burn-in (n_iter={n_iter}, n_burn_in_iter={nb}): "
+                 "the rows cannot be the mean / the lowest-loss draw of the draws kept after burn-in", meta, expected="an error (no draw to return)", observed=rows[0])
+        return
+    if algo == "mode_posterior":
+        for shrunk, how in py_mode_oracle(run, c, rows, att_rec):
+            run.fail("mode:not-the-lowest-loss-draw",
+                     f"mode_posterior returned for individual {shrunk['individual']!r} the draw of iteration {shrunk['returned_iteration']} ({how}) instead of the "
+                     f"first draw after burn-in of minimal attachment + regularity (iteration {shrunk['expected_iteration']}); temperature_inv when the "
+                     f"estimator was called: {rec.tinv_est}", dict(meta, chain=shrunk), expected=shrunk["expected_row"], observed=shrunk["returned_row"])
+            meta = dict(meta, chain=shrunk)
+        run.count("mode_python_oracle", "compared")
+    else:
+        for shrunk, hint in py_mean_oracle(run, c, rows):
+            run.fail("mean:not-the-mean-of-kept-draws",
+                     f"mean_posterior returned for individual {shrunk['individual']!r}, coordinate {shrunk['coordinate']}, {shrunk['returned']!r} instead of the mean "
+                     f"{shrunk['expected_mean']!r} of the draws of iterations {shrunk['kept_iterations'][0]}..{shrunk['kept_iterations'][1]}"
+                     + (f" (it is {hint[0]})" if hint else ""), dict(meta, chain=shrunk), expected=shrunk["expected_mean"], observed=shrunk["returned"])
+            meta = dict(meta, chain=shrunk)
+        run.count("mean_python_oracle", "compared")
+    # ---- the same, as literals for the model executed inside Coq
+    impl_lit = coq_list([f"({coq_string(i)}, {qlist(r)})" for i, r in zip(ids, rows)])
+    kept_n = n_kept if n_kept is not None else len(expected_kept)
+    run.case(("chain", inp["kind"], algo, n_iter, nb, inp["cohort"], inp["seed"], inp.get("schedule")), nontrivial=kept_n >= 2 and n_ind >= 2)
+    run.count("chain_kept_draws", kept_n)
+    with_h = hist_vals is not None and (inp["cohort"].startswith("grid") or n_ind <= 2)
+    hist_lit = (coq_list([coq_list([qlist(hist_vals[d][i].tolist()) for i in range(n_ind)]) for d in range(n_kept)]) if with_h else "[]") + (", true" if with_h else ", false")
+    lit = chain_lit(att_rec)
+    if algo == "mode_posterior":
+        tinv_lit = qlist(list(c["tinv"]) + [rec.tinv_est if rec.tinv_est is not None else 1.0])
+        acc.mode.append(f"({coq_Z(n_iter)}, {coq_Z(nb)}, {tinv_lit}, {ids_lit}, {lit}, {impl_lit}, {hist_lit})")
+        acc.mode_meta.append(meta)
+    else:
+        acc.mean.append(f"({coq_Z(n_iter)}, {coq_Z(nb)}, {ids_lit}, {dim}%nat, {lit}, {impl_lit}, {hist_lit})")
+        acc.mean_meta.append(meta)
+    run.sample(dict(kind_="chain", **inp, n_burn_in_effective=nb, kept=kept_n, temperature_inv_when_estimator_called=rec.tinv_est, first_row=rows[0]), limit=4)
 
 
-def run_chain_cases(run, strict_cases, strict_meta, mean_cases, mean_meta, count_cases, count_meta, empty_cases, empty_meta):
-    """The model's executable definitions, run inside Coq on the recorded chains (the four families run concurrently)."""
+def run_chain_cases(run, acc: Acc, gen_ok=True, model_ok=True, part=""):
+    """The model's executable definitions, run inside Coq on the recorded chains (the families run concurrently).  Only the comparison of
+    the regenerated kept-draw test needs the generated file; everything else imports the model alone."""
     from concurrent.futures import ThreadPoolExecutor
+    if not model_ok:
+        run.extra["coq_side_of_the_chain_replay"] = "skipped: the model's executable definitions did not build (reported as broken); python oracles ran"
+        return {}
     CH = "list (list (list Q * Q * Q))"
-    ty_mode = f"Z * Z * list string * {CH} * list (string * list Q) * list (list (list Q)) * bool"
+    ty_mode = f"Z * Z * list Q * list string * {CH} * list (string * list Q) * list (list (list Q)) * bool"
     ty_mean = f"Z * Z * list string * nat * {CH} * list (string * list Q) * list (list (list Q)) * bool"
     ty_empty = f"Z * Z * list string * nat * {CH}"
     jobs = dict(
-        count=("count", HDR, "Z * Z * nat", count_cases,
-               "(fun c => match c with (n, nb, k) => check_count n nb k && Nat.eqb (length (filter (fun i => gen_keep i nb) (zrange gen_iter_lo (gen_iter_hi n)))) k end)", 400),
-        mode=("mode", HDR, ty_mode, strict_cases,
-              "(fun c => match c with (n, nb, ids, l, impl, h, uh) => check_mode n nb ids l impl && (negb uh || check_history n nb l h) end)", 8),
-        mean=("mean", HDR, ty_mean, mean_cases,
+        count=("count" + part, HDR_MODEL, "Z * Z * nat", acc.count, "(fun c => match c with (n, nb, k) => check_count n nb k end)", 400),
+        mode=("mode" + part, HDR_MODEL, ty_mode, acc.mode,
+              "(fun c => match c with (n, nb, tinv, ids, l, impl, h, uh) => check_mode_annealed n nb tinv ids l impl && (negb uh || check_history n nb l h) end)", 8),
+        mean=("mean" + part, HDR_MODEL, ty_mean, acc.mean,
               "(fun c => match c with (n, nb, ids, dim, l, impl, h, uh) => check_mean (1 # 100000) n nb ids dim l impl && (negb uh || check_history n nb l h) end)", 8),
-        empty=("empty", HDR, ty_empty, empty_cases, "(fun c => match c with (n, nb, ids, dim, l) => check_empty n nb ids dim l end)", 8),
+        empty=("empty" + part, HDR_MODEL, ty_empty, acc.empty, "(fun c => match c with (n, nb, ids, dim, l) => check_empty n nb ids dim l end)", 8),
     )
-    with ThreadPoolExecutor(4) as ex:
+    if gen_ok:
+        jobs["count_gen"] = ("count_gen" + part, HDR, "Z * Z * nat", acc.count,
+                             "(fun c => match c with (n, nb, k) => Nat.eqb (length (filter (fun i => gen_keep i nb) (zrange gen_iter_lo (gen_iter_hi n)))) k end)", 400)
+    else:
+        run.extra["regenerated_rules_executed"] = "no: translation / proof broken in this run; the model's own rules were executed on the recorded chains"
+    with ThreadPoolExecutor(5) as ex:
         fut = {k: ex.submit(run.vm_bad_indices, *v[:5], shard=v[5]) for k, v in jobs.items()}
         res = {k: f.result() for k, f in fut.items()}
-    for i in res["count"] or []:
-        m = count_meta[i]
+    for i in sorted(set(res["count"] or []) | set(res.get("count_gen") or [])):
+        m = acc.count_meta[i]
         run.fail("mcmc:kept-count", "number of kept draws is not n_iter - n_burn_in_iter", m, expected=m["expected"], observed=m["kept"])
     bad = res["mode"]
     near = 0
     if bad:
-        sub = [strict_cases[i] for i in bad]
-        bad2 = run.vm_bad_indices("mode_lenient", HDR, ty_mode, sub,
-                                  "(fun c => match c with (n, nb, ids, l, impl, h, uh) => check_mode_lenient (1 # 1000000) n nb ids l impl && (negb uh || check_history n nb l h) end)", shard=8)
+        sub = [acc.mode[i] for i in bad]
+        bad2 = run.vm_bad_indices("mode_lenient" + part, HDR_MODEL, ty_mode, sub,
+                                  f"(fun c => match c with (n, nb, tinv, ids, l, impl, h, uh) => check_mode_lenient ({coq_Q(NEAR_TIE)}) n nb ids l impl && (negb uh || check_history n nb l h) end)", shard=8)
         near = len(bad) - len(bad2 or [])
         for j in bad2 or []:
+            m = acc.mode_meta[bad[j]]
             run.fail("mode:not-the-lowest-loss-draw", "mode_posterior row is not the first kept draw of minimal attachment + regularity of that individual "
-                     "(model executed in Coq on the recorded chain)", strict_meta[bad[j]])
-    run.extra["mode_cases_bit_exact"] = len(strict_cases) - len(bad or [])
-    run.extra["mode_cases_float32_near_tie"] = near
+                     "(model executed in Coq on the recorded chain)" + ("" if "chain" in m else "; the harness' own recomputation agreed with the implementation: see `coq_case`"),
+                     m if "chain" in m else dict(m, coq_case=acc.mode[bad[j]][:20000]))
+    stats = dict(mode_cases_bit_exact=len(acc.mode) - len(bad or []), mode_cases_float32_near_tie=near,
+                 chains_executed_in_coq=len(acc.mode) + len(acc.mean) + len(acc.empty))
     for i in res["mean"] or []:
-        run.fail("mean:not-the-mean-of-kept-draws", "mean_posterior row is not the mean of the draws kept after burn-in (model executed in Coq on the recorded chain)", mean_meta[i])
+        m = acc.mean_meta[i]
+        run.fail("mean:not-the-mean-of-kept-draws", "mean_posterior row is not the mean of the draws kept after burn-in (model executed in Coq on the recorded chain)",
+                 m if "chain" in m else dict(m, coq_case=acc.mean[i][:20000]))
     for i in res["empty"] or []:
-        run.fail("mcmc:raises-with-kept-draws", "the implementation raised although the model keeps at least one draw", empty_meta[i])
+        run.fail("mcmc:raises-with-kept-draws", "the implementation raised although the model keeps at least one draw", acc.empty_meta[i])
+    return stats
+
+
+def merge_stats(run, *stats):
+    for st in stats:
+        for k, v in (st or {}).items():
+            run.extra[k] = run.extra.get(k, 0) + v
 
 
 # ----------------------------------------------------------------------------- C. every kind x algorithm x cohort shape
@@ -443,18 +708,18 @@ def cohorts(kind, thorough, seed):
     from harness import synth
     joint = kind == "joint"
     n_feat = 1 if joint else 3
-    mk = lambda **kw: synth.make_df(n_feat=n_feat, joint=joint, kind=kind, **kw)
+    mk = lambda **kw: valid_cohort(synth.make_df(n_feat=n_feat, joint=joint, kind=kind, **kw), kind)
     out = {}
     out["one-individual"] = mk(n_ind=1, seed=seed + 1)
     d = mk(n_ind=5, seed=seed + 2)
-    out["one-visit-each"] = d.groupby("ID").head(1).reset_index(drop=True)
+    out["one-visit-each"] = valid_cohort(d.groupby("ID").head(1).reset_index(drop=True), kind)
     if not joint:
         out["missing-data"] = mk(n_ind=6, seed=seed + 3, missing=0.35)
     d = mk(n_ind=6, seed=seed + 4)
     ids = sorted(d.ID.unique())
     new = ["10", "9", "007", "1e3", "2.0", "b"]
     d["ID"] = d.ID.map(dict(zip(ids, new)))
-    out["shuffled-numeric-looking-ids"] = reorder_blocks(d, ["9", "b", "10", "1e3", "007", "2.0"])
+    out["shuffled-numeric-looking-ids"] = valid_cohort(reorder_blocks(d, ["9", "b", "10", "1e3", "007", "2.0"]), kind)
     if thorough or kind in ("logistic",):
         out["thirty"] = mk(n_ind=30, seed=seed + 5)
     return out
@@ -469,8 +734,14 @@ def model_variants(run, kind, thorough):
     kw = dict(noise="gaussian-diagonal") if kind == "mixture_logistic" else {}
     n_feat = 1 if kind == "joint" else 3
     try:
-        m, df = synth.fit(kind, n_iter=40, seed=run.seed % 1000, n_ind=14, n_feat=n_feat, **kw)
+        df_fit = cohort(run, kind, n_ind=14, n_feat=n_feat, seed=run.seed % 1000, binary=(kw.get("noise") == "bernoulli"))
+        m, df = synth.fit(kind, n_iter=40, seed=run.seed % 1000, n_ind=14, n_feat=n_feat, df=df_fit, **kw)
     except Exception as e:
+        from leaspy.exceptions import LeaspyDataInputError
+        if isinstance(e, LeaspyDataInputError):
+            run.count("skipped_cohorts_refused_by_the_data_reader", f"{kind}/training cohort: {str(e)[:80]}")
+            run.extra["skipped_cohorts"] = run.extra.get("skipped_cohorts", 0) + 1
+            return []
         run.fail(f"setup:fit-raises:{kind}", f"fit of a {kind} model raised {type(e).__name__}: {e}", dict(kind=kind))
         return []
     fd, p = tempfile.mkstemp(suffix=".json")
@@ -490,10 +761,21 @@ def model_variants(run, kind, thorough):
     return out
 
 
-def check_scipy(run: Run, model, kind, tag, cname, df, seed, n_jobs=1):
+SCIPY_SETTINGS = {
+    "default": {},
+    # an optimiser that gives up after one sweep (`success = False`): whatever it returns must still not be worse than the start
+    "powell-maxiter1": dict(custom_scipy_minimize_params=dict(method="Powell", options=dict(maxiter=1, xtol=1e-4, ftol=1e-4))),
+}
+
+
+def check_scipy(run: Run, model, kind, tag, cname, df, seed, n_jobs=1, settings="default"):
     """scipy_minimize on the real code: alignment, shapes, finiteness, non-worsening (objective recomputed on a FRESH
     state built from the caller's rows of that identifier)."""
     inp = dict(kind=kind, model=tag, algo="scipy_minimize", cohort=cname, n_ind=int(df.ID.nunique()), seed=seed)
+    if settings != "default":
+        inp["settings"] = settings
+    if build_dataset(run, df, kind, inp) is None:
+        return None
     names = ind_names(model)
     dims = declared_dims(model, names)
     rec = ScipyRecorder()
@@ -501,14 +783,15 @@ def check_scipy(run: Run, model, kind, tag, cname, df, seed, n_jobs=1):
         warnings.simplefilter("ignore")
         try:
             with quiet():
-                ip = model.personalize(df, "scipy_minimize", seed=seed, progress_bar=False, n_jobs=n_jobs)
+                ip = model.personalize(df, "scipy_minimize", seed=seed, progress_bar=False, n_jobs=n_jobs, **json.loads(json.dumps(SCIPY_SETTINGS[settings])))
         except Exception as e:
             sig = "personalize:joint-scipy-after-fit" if (kind == "joint" and tag == "fitted" and isinstance(e, ValueError)) \
                 else f"scipy:{kind}:{tag}:raises:{type(e).__name__}"
             run.fail(sig, f"scipy_minimize on a {tag} {kind} model raised {type(e).__name__}: {str(e)[:200]}", inp)
             return None
     ids = list(dict.fromkeys(str(i) for i in df.ID))
-    run.case(("scipy", kind, tag, cname, seed), nontrivial=len(ids) >= 2)
+    run.case(("scipy", kind, tag, cname, seed, settings), nontrivial=len(ids) >= 2)
+    run.count("scipy_settings", settings)
     run.count("cohort_shape", cname)
     run.count("algorithm", "scipy_minimize")
     if list(ip._indices) != ids:
@@ -541,22 +824,47 @@ def check_scipy(run: Run, model, kind, tag, cname, df, seed, n_jobs=1):
                      f"(method {call.get('method')})", one, expected=f"<= {f0[0]!r}", observed=call["fun"])
         run.extra["optimiser_returned_best_seen"] = run.extra.get("optimiser_returned_best_seen", 0) + (call["fun"] <= best_seen)
         run.extra["optimiser_runs"] = run.extra.get("optimiser_runs", 0) + 1
+        # the returned row is the optimiser's result brought back to natural coordinates by that variable's own (loc, scale):
+        # the point the theorems C17_scipy_cohort / C17_non_worsening are about
+        start_row = []
+        for n in names:
+            start_row += [float(x) for x in call["start"][n][0].reshape(-1).tolist()]
+        by_name, pos = {}, 0
+        for n, lo, sc_ in call["scal"]:
+            by_name[n] = [lo[j] + sc_[j] * float(call["x"][pos + j]) for j in range(len(lo))]
+            pos += len(lo)
+        model_row = [v for n in names for v in by_name.get(n, [])]
+        diverged = len(model_row) != len(row) or any(abs(a - b) > 1e-5 * (1 + abs(b)) for a, b in zip(row, model_row))
         # from scratch, on the caller's rows of that identifier
         try:
             st, _ = fresh_state(model, df[df.ID.astype(str) == pid], kind)
             f_res = fresh_objective(model, st, names, dims, row)
-            start_row = []
-            for n in names:
-                start_row += call["start"][n][0].reshape(-1).tolist()
             f_start = fresh_objective(model, st, names, dims, start_row)
+            f_model = fresh_objective(model, st, names, dims, model_row) if diverged and len(model_row) == len(row) else None
         except Exception as e:
             run.fail(f"oracle:fresh-objective-raises:{type(e).__name__}", f"recomputing the objective on a fresh state raised: {e}", one)
             continue
         tol = 1e-4 * (1 + abs(f_start))
+        if diverged:
+            # a guard that keeps a BETTER point than res.x (e.g. the start when the optimiser worsened it) is no concern of the property; returning a
+            # point that is WORSE than the result the code had in hand means the theorems (stated for unscaling(minimise ...)) no longer describe the code
+            worse = f_model is None or f_res > f_model + 1e-4 * (1 + abs(f_model))
+            run.count("scipy_row_differs_from_unscaling_of_res_x", "and is worse than it" if worse else "but is not worse than it (a guard?)")
+            if worse:
+                kept_start = len(start_row) == len(row) and all(abs(x - y) <= 1e-6 * (1 + abs(y)) for x, y in zip(row, start_row))
+                run.fail("scipy:row-is-not-unscaling-of-optimiser-result",
+                         f"the returned row is not loc + scale * res.x of each variable on its own slice, and its objective {f_res!r} (fresh state, that individual's "
+                         f"own data) is higher than {f_model!r} at loc + scale * res.x" +
+                         (f": it is the start point although the optimiser returned a point of objective {call['fun']!r} < {f0[0]!r} at the start "
+                          f"(success={call['success']}) - the better point is discarded; the model (result = unscaling(minimise ...)) no longer describes the code"
+                          if kept_start and call["fun"] < f0[0] else ""),
+                         dict(one, res_x=[float(v) for v in call["x"]], scalings={n: dict(loc=lo, scale=sc_) for n, lo, sc_ in call["scal"]},
+                              optimiser_success=call["success"], f_start=f0[0], f_result=call["fun"], start_row=start_row),
+                         expected=model_row, observed=row)
         if not (f_res <= f_start + tol):
             run.fail("non-worsening:fresh", "objective of the returned parameters, recomputed on a fresh state with that individual's own data, "
                      "is worse than at the start point", one, expected=f"<= {f_start!r}", observed=f_res)
-        if abs(f_res - call["fun"]) > 1e-4 * (1 + abs(f_res)):
+        if not diverged and abs(f_res - call["fun"]) > 1e-4 * (1 + abs(f_res)):
             run.fail("aligned:row-belongs-to-other-data", "the returned row does not reproduce the optimiser's final objective on that individual's own data "
                      "(row of another individual, or stale state)", one, expected=call["fun"], observed=f_res)
         run.count("improved", f_res < f_start)
@@ -565,8 +873,9 @@ def check_scipy(run: Run, model, kind, tag, cname, df, seed, n_jobs=1):
     return ip
 
 
-def check_mcmc_cohort(run: Run, model, kind, tag, cname, df, algo, seed, acc):
-    c = chain_case(run, model, df, kind, algo, n_iter=(16 if run.tier == "thorough" else 10), frac_=0.5, seed=seed, tag=f"{tag}/{cname}")
+def check_mcmc_cohort(run: Run, model, kind, tag, cname, df, algo, seed, acc, sched="default"):
+    c = chain_case(run, model, df, kind, algo, n_iter=(16 if run.tier == "thorough" else 10), frac_=0.5, seed=seed, tag=f"{tag}/{cname}",
+                   ann=SCHEDULES[sched], sched=sched)
     if c is None:
         return
     run.count("cohort_shape", cname)
@@ -596,7 +905,7 @@ def check_mcmc_cohort(run: Run, model, kind, tag, cname, df, algo, seed, acc):
                 if f_row > min(f_kept) + 1e-4 * (1 + abs(min(f_kept))):
                     run.fail("mode:fresh-loss-not-minimal", "on that individual's own data a kept draw has a lower loss than the returned row",
                              dict(c["inp"], id=pid), expected=min(f_kept), observed=f_row)
-    chain_checks(run, c, *acc)
+    chain_checks(run, c, acc)
 
 
 def integer_ids_probe(run: Run, model):
@@ -659,30 +968,166 @@ def metamorphic_scipy(run: Run, model, kind):
                  expected=row_of(base, ids[1], names), observed=row_of(single, ids[1], names))
 
 
-def check(run: Run):
+# ----------------------------------------------------------------------------- D. directed calls of the real estimators
+
+
+def estimator_probes(run: Run, live, n_cases: int, model_ok=True):
+    """`_compute_individual_parameters_from_samples_torch` of the algorithm objects left by real runs (one per algorithm x schedule, in the
+    state the run left them in: a `plateau1-T3` object still has temperature_inv = 1/3) on synthetic stacked histories: dyadic values,
+    every draw distinguishable, attachment / regularity on a coarse grid so that exact ties between DIFFERENT draws are frequent (on real
+    chains ties only occur between repeated, identical states).  Compared with the extracted rule in the harness and inside Coq."""
+    import torch
+    if not live:
+        return
+    mode_cases, mode_meta, mean_cases, mean_meta = [], [], [], []
+    per = max(1, n_cases // len(live))
+    for (algo, sched), c in sorted(live.items()):
+        rec = c["rec"]
+        obj, names = rec.algo, c["names"]
+        if rec.hist is None:
+            continue
+        shapes = {n: tuple(rec.hist[0][n].shape[2:]) for n in names}
+        dims = {n: int(math.prod(shapes[n]) or 1) for n in names}
+        dim = sum(dims.values())
+        rng = run.rng("estimator", algo, sched)
+        tinv = float(getattr(obj, "temperature_inv", 1.0))
+        for t in range(per):
+            n_kept, n_ind = rng.randint(1, 6), rng.randint(1, 4)
+            flat = [[[float(d * 16 + i * 4) + j / 8.0 for j in range(dim)] for i in range(n_ind)] for d in range(n_kept)]
+            a = [[rng.randrange(0, 13) / 4.0 for _ in range(n_ind)] for _ in range(n_kept)]
+            r = [[rng.randrange(0, 13) / 4.0 for _ in range(n_ind)] for _ in range(n_kept)]
+            values, pos = {}, 0
+            for n in names:
+                values[n] = torch.tensor([[row[pos:pos + dims[n]] for row in draw] for draw in flat], dtype=torch.float32).reshape(n_kept, n_ind, *shapes[n])
+                pos += dims[n]
+            base = dict(probe="estimator", algo=algo, schedule=sched, temperature_inv_of_the_algorithm_object=tinv, n_draws=n_kept, n_ind=n_ind)
+            try:
+                out = type(obj)._compute_individual_parameters_from_samples_torch(obj, values, torch.tensor(a), torch.tensor(r))
+                rows = [[float(x) for n in names for x in out[n][i].reshape(-1).tolist()] for i in range(n_ind)]
+            except Exception as e:  # noqa
+                run.fail(f"{algo.split('_')[0]}:estimator-probe:raises:{type(e).__name__}", f"the estimator raised {type(e).__name__}: {e}",
+                         dict(base, values=flat, attachments=a, regularities=r))
+                continue
+            loss = [[frac(a[d][i]) + frac(r[d][i]) for i in range(n_ind)] for d in range(n_kept)]
+            ties = any(sum(1 for d in range(n_kept) if loss[d][i] == min(loss[x][i] for x in range(n_kept))) > 1 for i in range(n_ind))
+            run.case(("estimator", algo, sched, t), nontrivial=n_kept >= 2)
+            run.count("estimator_probe", f"{algo}/{sched}" + ("/with-exact-tie" if ties and algo == "mode_posterior" else ""))
+            h_lit = coq_list([coq_list(["(" + qlist(flat[d][i]) + f", {coq_Q(a[d][i])}, {coq_Q(r[d][i])})" for i in range(n_ind)]) for d in range(n_kept)])
+            impl_lit = coq_list([qlist(row) for row in rows])
+            found = None
+            for i in range(n_ind):
+                col = [loss[d][i] for d in range(n_kept)]
+                if algo == "mode_posterior":
+                    d0 = col.index(min(col))
+                    if rows[i] == flat[d0][i]:
+                        continue
+                    d1 = next((d for d in range(n_kept) if flat[d][i] == rows[i]), None)
+                    tie = d1 is not None and col[d1] == col[d0]
+                    two = sorted({d0} | ({d1} if d1 is not None else set()))
+                    found = ("mode:estimator-probe:tie-not-first-index" if tie else "mode:estimator-probe:not-the-lowest-loss-draw",
+                             ("on an exact tie of attachment + regularity between different draws the estimator does not return the first one (the rule extracted "
+                              "from the source, which is torch.argmin's documented convention)" if tie else
+                              "the estimator returns a draw whose attachment + regularity is not minimal") + f"; temperature_inv of the algorithm object: {tinv}",
+                             dict(base, n_draws=len(two), n_ind=1, individual=i, draws=[dict(index=d, values=flat[d][i], attachment=a[d][i], regularity=r[d][i]) for d in two],
+                                  full_history=dict(values=[[flat[d][i]] for d in range(n_kept)], attachments=[[a[d][i]] for d in range(n_kept)],
+                                                    regularities=[[r[d][i]] for d in range(n_kept)])),
+                             flat[d0][i], rows[i])
+                    break
+                else:
+                    exp = [float(sum(frac(flat[d][i][j]) for d in range(n_kept)) / n_kept) for j in range(dim)]
+                    if all(abs(x - y) <= 1e-5 * (1 + abs(y)) for x, y in zip(rows[i], exp)) and len(rows[i]) == dim:
+                        continue
+                    found = ("mean:estimator-probe:not-the-mean", "the estimator does not return the mean over the draws it is given",
+                             dict(base, n_ind=1, individual=i, draws=[dict(index=d, values=flat[d][i]) for d in range(n_kept)]), exp, rows[i])
+                    break
+            if found:
+                run.fail(found[0], found[1], found[2], expected=found[3], observed=found[4])
+            meta = found[2] if found else dict(base, values=flat, attachments=a, regularities=r)
+            if algo == "mode_posterior":
+                mode_cases.append(f"({h_lit}, {impl_lit})")
+                mode_meta.append((meta, bool(found)))
+            else:
+                mean_cases.append(f"({dim}%nat, {h_lit}, {impl_lit})")
+                mean_meta.append((meta, bool(found)))
+    if not model_ok:
+        return
+    CH = "list (list (list Q * Q * Q))"
+    bad = run.vm_bad_indices("est_mode", HDR_MODEL, f"{CH} * list (list Q)", mode_cases, "(fun c => check_est_mode (fst c) (snd c))", shard=100)
+    for i in bad or []:
+        if not mode_meta[i][1]:   # otherwise already reported, with its shrunk history, by the harness' own recomputation
+            run.fail("mode:estimator-probe:not-the-lowest-loss-draw", "the estimator differs from mode_posterior of the model executed in Coq on a synthetic history", mode_meta[i][0])
+    bad = run.vm_bad_indices("est_mean", HDR_MODEL, f"nat * {CH} * list (list Q)", mean_cases,
+                             "(fun c => match c with (dim, h, impl) => check_est_mean (1 # 100000) dim h impl end)", shard=100)
+    for i in bad or []:
+        if not mean_meta[i][1]:
+            run.fail("mean:estimator-probe:not-the-mean", "the estimator differs from mean_posterior of the model executed in Coq on a synthetic history", mean_meta[i][0])
+
+
+# ----------------------------------------------------------------------------- the check
+
+
+def grid_model(run: Run):
+    from harness import synth
+    return synth.fit("logistic", n_iter=30, seed=run.seed % 1000, n_ind=10, n_feat=2)[0]
+
+
+def grid_df(run: Run, tag: str):
+    from harness import synth
+    seed = run.seed % 1000
+    if tag.endswith("-8"):
+        return synth.make_df(n_ind=8, n_feat=2, seed=seed + 9)
+    return synth.make_df(n_ind=3, n_feat=2, seed=seed + 7)
+
+
+def schedule_grid(thorough):
+    """(schedule, n_iter, n_burn_in_iter, n_burn_in_iter_frac, cohort tag)"""
+    out = []
+    for s in SCHEDULES:
+        for n_iter in ((12,) if not thorough else (12, 20, 31)):
+            for nb, fr in ((0, None), (n_iter - 1, None), (None, 0.25), (None, 0.5)):
+                if s == "default" and not thorough and (nb, fr) != (None, 0.5):
+                    continue    # the default schedule is what the first grid explores
+                out.append((s, n_iter, nb, fr, "grid-schedules"))
+        if s != "default":
+            out.append((s, 30 if not thorough else 60, 0, None, "grid-schedules-8"))
+            out.append((s, 30 if not thorough else 60, None, 0.5, "grid-schedules-8"))
+    return out
+
+
+def check(run: Run, gen_ok=True, model_ok=True):
     from harness.common import use_impl
     use_impl()
     from harness import synth
     thorough = run.tier == "thorough"
-    run.rule = ("A: random _AffineScalings1D (1-4 variables of 1-3 coordinates, dyadic loc/scale/x so float32 is exact) compared inside Coq. "
-                "B: real seeded mean_/mode_posterior runs, the whole chain snapshotted after every sampler call; grid over (n_iter, n_burn_in_iter | "
-                "n_burn_in_iter_frac) incl. no kept draw; kept count, kept history, mode (bit-exact) and mean (1e-5) recomputed by the model in Coq. "
-                "C: every shipped kind x {loaded, fitted} x {scipy_minimize, mean_posterior, mode_posterior} x cohort shape {1 individual, 1 visit "
-                "each, missing data, shuffled numeric-looking ids, 30 individuals}: identifiers/order/shapes/finiteness; scipy: res.fun <= f(x0) as seen "
-                "by the optimiser and objective recomputed on a fresh single-individual state <= objective at the start point. "
-                "Non-trivial = at least two individuals and two kept draws (B), two individuals (C), two variables (A); distinct by canonical tuple.")
+    run.rule = ("A: random _AffineScalings1D (1-4 variables of 1-3 coordinates, dyadic loc/scale/x so float32 is exact) compared with the rule in the harness "
+                "and inside Coq. B: real seeded mean_/mode_posterior runs, the whole chain (all individual variables, attachment, regularity, temperature_inv "
+                "of every iteration) snapshotted by wrapping sampler.sample; grid over (n_iter, n_burn_in_iter | n_burn_in_iter_frac) incl. no kept draw, and "
+                "over the schedules {default, annealing n_plateau=1 at T=3 (run ENDS at T=3), annealing 3 plateaus 3->1, oscillations} x burn-in {0, n_iter-1, "
+                "25 %, 50 %} x {3, 8 individuals}; kept count, kept history, mode (bit-exact: first index minimising attachment + regularity after burn-in) and "
+                "mean (1e-5) recomputed in the harness (exact rationals) AND by the model inside Coq, independently of the regenerated file; a mismatch is "
+                "shrunk to the offending individual and the two competing iterations and re-checked on the real estimator. "
+                "C: every shipped kind x {loaded, fitted} x {scipy_minimize, mean_posterior, mode_posterior} x cohort shape {1 individual, 1 visit each, "
+                "missing data, shuffled numeric-looking ids, 30 individuals} (+ mode_posterior at T=3 and scipy with an optimiser that gives up, per kind): "
+                "identifiers/order/shapes/finiteness; scipy: res.fun <= f(x0) as seen by the optimiser, returned row = loc + scale * res.x, objective recomputed on "
+                "a fresh single-individual state <= objective at the start point. D: the real estimators called on synthetic histories with exact ties. "
+                "Non-trivial = at least two individuals and two kept draws (B), two individuals (C), two variables (A), two draws (D); distinct by canonical tuple.")
     seed = run.seed % 1000
+    REPAIRS.clear()
     # ---- A
     scalings_cases(run, 400 if thorough else 120)
     # ---- B: grid on a small logistic model
-    acc = ([], [], [], [], [], [], [], [])
+    from concurrent.futures import ThreadPoolExecutor
+    pool = ThreadPoolExecutor(1)
+    fut_grid = None
+    acc = Acc()
+    live = {}
     try:
-        m_small, _ = synth.fit("logistic", n_iter=30, seed=seed, n_ind=10, n_feat=2)
+        m_small = grid_model(run)
     except Exception as e:
         run.fail("setup:fit-raises:logistic", f"{type(e).__name__}: {e}", {})
         m_small = None
     if m_small is not None:
-        df_small = synth.make_df(n_ind=3, n_feat=2, seed=seed + 7)
+        df_small = grid_df(run, "grid")
         grid = []
         for n_iter in ((1, 2, 3, 5, 8, 12) if not thorough else (1, 2, 3, 4, 5, 7, 8, 12, 20, 33)):
             for nb in range(0, n_iter + 2):
@@ -696,11 +1141,27 @@ def check(run: Run):
             c = chain_case(run, m_small, df_small, "logistic", algo, n_iter, nb=nb, frac_=fr, seed=seed + j, tag="grid")
             if c is not None:
                 run.count("grid_n_iter", n_iter)
-                chain_checks(run, c, *acc)
+                chain_checks(run, c, acc)
+        # the same under non-default temperature schedules
+        for j, (s, n_iter, nb, fr, tag) in enumerate(schedule_grid(thorough)):
+            for algo in ("mode_posterior", "mean_posterior"):
+                if tag.endswith("-8") and algo == "mean_posterior" and not thorough:
+                    continue
+                c = chain_case(run, m_small, grid_df(run, tag), "logistic", algo, n_iter, nb=nb, frac_=fr, seed=seed + 500 + j, tag=tag, ann=SCHEDULES[s], sched=s)
+                if c is not None:
+                    run.count("grid_n_iter", n_iter)
+                    chain_checks(run, c, acc)
+                    if c["err"] is None:
+                        live.setdefault((algo, s), c)
+        run.log("B (grid + schedules) recorded")
+        # the Coq side of the grid runs in the background (separate coqc processes) while the cohorts of part C are personalised
+        fut_grid = pool.submit(run_chain_cases, run, acc, gen_ok, model_ok, "_grid")
+        estimator_probes(run, live, 1600 if thorough else 400, model_ok=model_ok)
         integer_ids_probe(run, m_small)
+    acc = Acc()
     # ---- C
     kinds = synth.KINDS
-    run.log("A/B done")
+    run.log("A/B/D done")
     for kind in kinds:
         for tag, model in model_variants(run, kind, thorough):
             # scipy first: a sampling-based run replaces model.state (and, when it crashes, leaves it unusable)
@@ -715,62 +1176,157 @@ def check(run: Run):
                 if tag == "fitted" and kind == "joint" and cname != "one-individual":
                     continue   # the known crash is reported once
                 check_scipy(run, model, kind, tag, cname, df, seed)
+                if tag == "loaded" and (thorough or cname in ("missing-data", "one-visit-each")):
+                    check_scipy(run, model, kind, tag, cname, df, seed, settings="powell-maxiter1")
             for cname, df in todo:
                 for algo in ("mean_posterior", "mode_posterior"):
                     if kind == "mixture_logistic" and (cname != "one-individual" or algo != "mean_posterior") and not thorough:
                         continue   # the known crash is reported once per run
                     check_mcmc_cohort(run, model, kind, tag, cname, df, algo, seed, acc)
+                    if kind != "mixture_logistic" and tag == "loaded" and (thorough or cname in ("missing-data", "shuffled-numeric-looking-ids")):
+                        check_mcmc_cohort(run, model, kind, tag, cname, df, algo, seed, acc, sched="plateau1-T3")
             run.log(f"C {kind}/{tag} done")
-    run_chain_cases(run, *acc)
+    st_c = run_chain_cases(run, acc, gen_ok=gen_ok, model_ok=model_ok, part="_cohorts")
+    merge_stats(run, fut_grid.result() if fut_grid is not None else {}, st_c)
+    pool.shutdown()
+    for k, v in REPAIRS.items():
+        run.count("generator_repairs", k, v)
+    run.extra.setdefault("skipped_cohorts", 0)
     n = run.extra.get("optimiser_runs", 0)
     run.extra["hypothesis_minimise_monotone_validated_on"] = f"{n} real optimisations of this run (validation of the oracle hypothesis, not a proof)"
 
 
 def main(run: Run):
-    ok_t = translate(run)
+    from harness import common
+    try:
+        ok_t = translate(run)
+    except Exception as e:  # noqa  - an AST shape the translator has never met must not stop the search
+        import traceback
+        run.broken("translate:GenC17", f"translator crashed: {type(e).__name__}: {e}\n{traceback.format_exc()[-800:]}", kind="broken-translation")
+        ok_t = False
     ok_p = run.prove("C17", OBLIGATIONS) if ok_t else False
+    if not ok_t:
+        run.obligations += [o for o in OBLIGATIONS if o not in run.obligations]
+    # whatever happened above, the chain-replay oracle runs: its Coq side only needs the model's own executable definitions
+    model_ok = True
+    if not ok_p:
+        common.regen_coqproject()
+        model_ok, out = common.make(MODEL_TARGETS)
+        if not model_ok:
+            run.broken("build:model-executables", out[-1500:])
     run.assumptions += [
         "minimise_monotone: scipy.optimize.minimize never returns a point worse than x0 (hypothesis of C17_non_worsening; the code has no guard)",
-        "torch.argmin returns the first minimal index; torch.stack/mean as documented (validated on every recorded chain)",
-        "float rounding is outside the theorems: mean compared at 1e-5 relative, mode bit-exact up to float32 near-ties of attachment+regularity",
+        "torch.argmin returns the first minimal index; torch.stack/mean as documented (validated on every recorded chain and on synthetic histories with exact ties)",
+        "float rounding is outside the theorems: mean compared at 1e-5 relative, mode bit-exact up to float32 near-ties (1e-6 relative) of attachment+regularity",
         "identifiers are strings (IDType = str); integer identifiers are refused by the implementation (finding personalize:integer-ids)",
+        "the samplers are not modelled: the chain (and the temperature schedule that shaped it) is an input of the modelled run",
     ]
-    run.explanation = ("Theorems over all chains / iteration counts / burn-in lengths / identifier lists / slice tables / real parameters; decision rules "
-                       "regenerated from the source by symbolic execution of the Python AST and proved equal to the model; the model is executed inside Coq "
-                       "on chains recorded from real seeded runs; the optimiser clause rests on the hypothesis minimise_monotone which this run validates "
-                       "on the real optimiser but does not prove.")
+    run.explanation = ("Theorems over all chains / temperature schedules / iteration counts / burn-in lengths / identifier lists / slice tables / real parameters; "
+                       "decision rules regenerated from the source by symbolic execution of the Python AST and proved equal to the model; the model is executed "
+                       "inside Coq on chains recorded from real seeded runs (default and non-default annealing schedules) - this part imports no regenerated file "
+                       "and runs, with the harness' own exact recomputation, even when translation or proof are broken; the optimiser clause rests on the "
+                       "hypothesis minimise_monotone which this run validates on the real optimiser but does not prove.")
     try:
-        check(run)
+        check(run, gen_ok=ok_p, model_ok=model_ok)
     except Exception as e:  # noqa
         import traceback
         run.broken("search", f"{type(e).__name__}: {e}\n{traceback.format_exc()[-1500:]}")
     return run.finish()
 
 
+def replay_estimator(run: Run, inp):
+    """A shrunk history on the real estimator: the algorithm object is the one a real run under the recorded schedule leaves behind."""
+    import torch
+    algo, sched = inp["algo"], inp.get("schedule", "default")
+    c = chain_case(run, grid_model(run), grid_df(run, "grid-schedules"), "logistic", algo, 12, nb=0, seed=0, tag="grid-schedules", ann=SCHEDULES[sched], sched=sched)
+    if c is None or c["rec"].hist is None:
+        print("replay: could not obtain a live algorithm object")
+        return
+    obj, names = c["rec"].algo, c["names"]
+    shapes = {n: tuple(c["rec"].hist[0][n].shape[2:]) for n in names}
+    draws = inp["draws"]
+    values, pos = {}, 0
+    for n in names:
+        d = int(math.prod(shapes[n]) or 1)
+        values[n] = torch.tensor([[dr["values"][pos:pos + d]] for dr in draws], dtype=torch.float32).reshape(len(draws), 1, *shapes[n])
+        pos += d
+    a = torch.tensor([[dr.get("attachment", 0.0)] for dr in draws], dtype=torch.float32)
+    r = torch.tensor([[dr.get("regularity", 0.0)] for dr in draws], dtype=torch.float32)
+    out = type(obj)._compute_individual_parameters_from_samples_torch(obj, values, a, r)
+    row = [float(x) for n in names for x in out[n][0].reshape(-1).tolist()]
+    print(f"estimator of a live {algo} object (schedule {sched}, temperature_inv {getattr(obj, 'temperature_inv', None)}) on the {len(draws)} recorded draws returns {row}")
+    if algo == "mode_posterior":
+        loss = [frac(dr["attachment"]) + frac(dr["regularity"]) for dr in draws]
+        exp = draws[loss.index(min(loss))]["values"]
+        if row != [float(x) for x in exp]:
+            tie = any([float(x) for x in dr["values"]] == row and l == min(loss) for dr, l in zip(draws, loss))
+            run.fail("mode:estimator-probe:tie-not-first-index" if tie else "mode:estimator-probe:not-the-lowest-loss-draw",
+                     "the estimator does not return the first draw of minimal attachment + regularity", inp, expected=exp, observed=row)
+    else:
+        exp = [float(sum(frac(dr["values"][j]) for dr in draws) / len(draws)) for j in range(len(row))]
+        if any(abs(x - y) > 1e-5 * (1 + abs(y)) for x, y in zip(row, exp)):
+            run.fail("mean:estimator-probe:not-the-mean", "the estimator does not return the mean of the draws", inp, expected=exp, observed=row)
+
+
 def replay(run: Run, path: str):
     """Re-run one recorded input on the current tree."""
+    from harness import common
     from harness.common import use_impl
     use_impl()
     from harness import synth
     d = json.load(open(path))
     inp = d.get("input") or {}
-    if not isinstance(inp, dict) or "algo" not in inp:
+    if not isinstance(inp, dict) or ("algo" not in inp and "z" not in inp):
         print("replay: this file records a broken obligation / a model-level case, re-running the check itself")
         return main(run)
-    kind, algo = inp.get("kind", "logistic"), inp["algo"]
+    common.regen_coqproject()
+    model_ok, _ = common.make(MODEL_TARGETS)
     seed = run.seed % 1000
-    print("replaying", {k: inp[k] for k in inp if k != "ids"})
-    if "ids" in inp and inp.get("ids") and isinstance(inp["ids"][0], int):
-        m, _ = synth.fit("logistic", n_iter=30, seed=seed, n_ind=10, n_feat=2)
-        integer_ids_probe(run, m)
-    elif inp.get("cohort") == "grid":
-        m, _ = synth.fit("logistic", n_iter=30, seed=seed, n_ind=10, n_feat=2)
-        acc = ([], [], [], [], [], [], [], [])
-        c = chain_case(run, m, synth.make_df(n_ind=3, n_feat=2, seed=seed + 7), "logistic", algo, inp["n_iter"], nb=inp.get("n_burn_in_iter"),
-                       frac_=inp.get("n_burn_in_iter_frac"), seed=inp.get("seed", 0), tag="grid")
+    if "z" in inp:   # a scalings case: self-contained
+        import numpy as np
+        import torch
+        from leaspy.algo.personalize.scipy_minimize import _AffineScaling, _AffineScalings1D
+        sc = _AffineScalings1D({n: _AffineScaling(torch.tensor(inp["loc"][n]), torch.tensor(inp["scale"][n])) for n in inp["names"]})
+        un = sc.unscaling(np.array(inp["z"]))
+        obs = {n: [float(x) for x in un[n].reshape(-1).tolist()] for n in inp["names"]}
+        exp, pos = {}, 0
+        for n in inp["names"]:
+            exp[n] = [l + s * inp["z"][pos + j] for j, (l, s) in enumerate(zip(inp["loc"][n], inp["scale"][n]))]
+            pos += len(inp["loc"][n])
+        print("unscaling(z) =", obs, "| loc + scale * z per slice =", exp)
+        if obs != exp:
+            run.fail("scalings:model-mismatch", "_AffineScalings1D.unscaling is not loc + scale * x of each variable on its own slice", inp, expected=exp, observed=obs)
+        else:
+            scd = [float(x) for x in sc.scaling({n: torch.tensor(v) for n, v in inp["ips"].items()}).tolist()]
+            exp_s = [(x - l) / s for n in inp["names"] for x, l, s in zip(inp["ips"][n], inp["loc"][n], inp["scale"][n])]
+            print("scaling(ips) =", scd, "| (x - loc) / scale =", exp_s)
+            if scd != exp_s:
+                run.fail("scalings:model-mismatch", "_AffineScalings1D.scaling is not (x - loc) / scale", inp, expected=exp_s, observed=scd)
+        return _replay_end(run)
+    kind, algo = inp.get("kind", "logistic"), inp["algo"]
+    print("replaying", {k: inp[k] for k in inp if k not in ("ids", "chain", "coq_case", "full_history")})
+    if inp.get("probe") == "estimator":
+        replay_estimator(run, inp)
+    elif "ids" in inp and inp.get("ids") and isinstance(inp["ids"][0], int):
+        integer_ids_probe(run, grid_model(run))
+    elif str(inp.get("cohort", "")).startswith("grid"):
+        acc = Acc()
+        sched = inp.get("schedule", "default")
+        c = chain_case(run, grid_model(run), grid_df(run, inp["cohort"]), "logistic", algo, inp["n_iter"], nb=inp.get("n_burn_in_iter"),
+                       frac_=inp.get("n_burn_in_iter_frac"), seed=inp.get("seed", 0), tag=inp["cohort"], ann=inp.get("annealing", SCHEDULES.get(sched)), sched=sched)
         if c is not None:
-            chain_checks(run, c, *acc)
-            run_chain_cases(run, *acc)
+            if "chain" in inp and "draws" in inp["chain"] and "attachment" in inp["chain"]["draws"][0]:
+                sh = inp["chain"]
+                ks = [dr["iteration"] for dr in sh["draws"]]
+                same = all([float(x) for x in c["chain"][k - 1][0][sh["index"]].tolist()] == dr["values"] for k, dr in zip(ks, sh["draws"]))
+                print(f"the seeded chain is {'the recorded one' if same else 'NOT the recorded one'} at iterations {ks} of individual {sh['individual']!r}")
+                att_rec = {}
+                if c["rec"].hist is not None:
+                    kept = list(range(max(1, c['nb_eff'] + 1), inp["n_iter"] + 1))
+                    att_rec = {k: (c["rec"].hist[1][d].reshape(-1), c["rec"].hist[2][d].reshape(-1)) for d, k in enumerate(kept) if d < c["rec"].hist[1].shape[0]}
+                print("the real estimator on the two recorded draws returns", estimator_on(c, sh["index"], ks, att_rec), "| lowest attachment + regularity:", sh["expected_row"])
+            chain_checks(run, c, acc)
+            run_chain_cases(run, acc, gen_ok=False, model_ok=model_ok)
     else:
         cohort = inp.get("cohort", "one-individual")
         tag = inp.get("model") or cohort.split("/")[0]
@@ -780,11 +1336,15 @@ def replay(run: Run, path: str):
                 continue
             df = cohorts(kind, True, seed)[cname]
             if algo == "scipy_minimize":
-                check_scipy(run, model, kind, t, cname, df, seed)
+                check_scipy(run, model, kind, t, cname, df, seed, settings=inp.get("settings", "default"))
             else:
-                acc = ([], [], [], [], [], [], [], [])
-                check_mcmc_cohort(run, model, kind, t, cname, df, algo, seed, acc)
-                run_chain_cases(run, *acc)
+                acc = Acc()
+                check_mcmc_cohort(run, model, kind, t, cname, df, algo, seed, acc, sched=inp.get("schedule", "default"))
+                run_chain_cases(run, acc, gen_ok=False, model_ok=model_ok)
+    return _replay_end(run)
+
+
+def _replay_end(run: Run):
     for f in run._fails:
         print("FAIL", f["signature"], "-", f["what"], "| expected", f["expected"], "| observed", f["observed"])
     for s, w in run._known_hit.items():
